@@ -274,6 +274,96 @@ def left_nested_power(ctx, tmpdir):
             ctx.count("nested_power_ok")
 
 
+def power_text(ctx, tmpdir):
+    """every shape of a tree of powers with up to three `^` (identifiers A, p, B, q from left to right) as the kinetic law of a
+    document: libsbml's text for it against the Lean printer, the imported rate against the value of the tree the Lean reader
+    returns (theorem read_print_readBack), and - the property - against the document's own mathematics."""
+    from bioscrape.types import Model
+    from bioscrape.simulator import ModelCSimInterface
+    names = ["A", "p", "B", "q"]
+    vals = {"A": 1.5, "p": 1.1, "B": 1.2, "q": 0.9}
+
+    def shapes(k):
+        if k == 0:
+            return ["leaf"]
+        out = []
+        for i in range(k):
+            for a in shapes(i):
+                for b in shapes(k - 1 - i):
+                    out.append((a, b))
+        return out
+
+    def label(shape, counter):
+        if shape == "leaf":
+            counter[0] += 1
+            return {"atom": counter[0] - 1}
+        a = label(shape[0], counter)
+        return {"pow": [a, label(shape[1], counter)]}
+
+    def ast_of(t):
+        if "atom" in t:
+            n = libsbml.ASTNode(libsbml.AST_NAME); n.setName(names[t["atom"]]); return n
+        n = libsbml.ASTNode(libsbml.AST_POWER); n.addChild(ast_of(t["pow"][0])); n.addChild(ast_of(t["pow"][1])); return n
+
+    def value(t):
+        return vals[names[t["atom"]]] if "atom" in t else value(t["pow"][0]) ** value(t["pow"][1])
+
+    def show(t):
+        return names[t["atom"]] if "atom" in t else "(%s)^(%s)" % (show(t["pow"][0]), show(t["pow"][1]))
+    trees = [label(sh, [0]) for k in (1, 2, 3) for sh in shapes(k)]
+    answers = driver_batch([{"op": "powtext", "tree": t} for t in trees])
+    for t, a in zip(trees, answers):
+        case = {"power_tree": show(t)}
+        ctx.begin_case(case)
+        if "error" in a:
+            ctx.broke("corr_C13_driver", dict(case, error=a["error"]))
+            return
+        ast = ast_of(t)
+        printed = libsbml.formulaToL3String(ast).replace(" ", "")
+        model_text = a["text"]
+        for i, nm in enumerate(names):
+            model_text = model_text.replace("x%d" % i, nm)
+        if printed != model_text:
+            ctx.broke("corr_C13_power_text_print", dict(case, libsbml=printed, model=model_text))
+        if a["read"] != a["readBack"]:
+            ctx.broke("corr_C13_power_text_reader_vs_theorem", dict(case, read=a["read"], readBack=a["readBack"]))
+        doc = libsbml.SBMLDocument(3, 2)
+        m = doc.createModel(); m.setId("power_text")
+        c = m.createCompartment(); c.setId("cell"); c.setSize(1.0); c.setConstant(True); c.setSpatialDimensions(3)
+        for sname in ("A", "B", "P"):
+            sp = m.createSpecies(); sp.setId(sname); sp.setCompartment("cell"); sp.setConstant(False); sp.setBoundaryCondition(False)
+            sp.setHasOnlySubstanceUnits(False); sp.setInitialAmount(1.0)
+        for g in ("p", "q"):
+            par = m.createParameter(); par.setId(g); par.setConstant(True); par.setValue(vals[g])
+        r = m.createReaction(); r.setId("r0"); r.setReversible(False)
+        pr = r.createProduct(); pr.setSpecies("P"); pr.setStoichiometry(1.0); pr.setConstant(True)
+        for mod in ("A", "B"):
+            mr = r.createModifier(); mr.setSpecies(mod)
+        r.createKineticLaw().setMath(ast)
+        path = os.path.join(tmpdir, "power_text.xml")
+        libsbml.writeSBMLToFile(doc, path)
+        M = Model(sbml_filename=path, sbml_warnings=False)
+        sl = M.get_species_list()
+        I = ModelCSimInterface(M)
+        I.py_prep_deterministic_simulation()
+        x = {"A": vals["A"], "B": vals["B"], "P": 0.0}
+        dx = np.zeros(len(sl))
+        I.py_calculate_deterministic_derivative(np.array([x[s_] for s_ in sl]), dx, 0.0)
+        got = float(dx[sl.index("P")])
+        ctx.evaluated()
+        if relerr(got, value(a["readBack"])) > 1e-9:
+            ctx.broke("corr_C13_power_text_read", dict(case, implementation=got, model=value(a["readBack"]), model_tree=show(a["readBack"])))
+        want = value(t)
+        if relerr(got, want) > 1e-9:
+            ctx.violation("rate-equation/left-nested-power" if not a["leftAtomic"] else "rate-equation/nested-power",
+                          "kinetic law %s (MathML) is imported with rate %r; the document's mathematics give %r (libsbml writes it as %s)"
+                          % (show(t), got, want, printed), dict(case, got=got, want=want, printed_by_libsbml=printed))
+        else:
+            ctx.count("power_trees_imported_as_written")
+        ctx.count("power_trees")
+        ctx.nontriv(("power_text", show(t)))
+
+
 def both_attributes(ctx, tmpdir):
     """species that carry an initialAmount *and* an initialConcentration (files written by other tools; libsbml reads both):
     a non-zero amount takes precedence however small it is, an amount of exactly 0 gives way to the concentration."""
@@ -316,6 +406,7 @@ def run(ctx):
         for i in range(n):
             one(ctx, ctx.rng, d)
         left_nested_power(ctx, d)
+        power_text(ctx, d)
         both_attributes(ctx, d)
 
 
